@@ -3,7 +3,7 @@ import LemoModel.Stable
 namespace Driver.C03
 open LemoModel LemoModel.Stable Driver
 
-/-- `x.1` = unrecoverable signature number 1, `2.0` = deputy 2 canonical, `2.1` = deputy 2 re-encoded. -/
+/-- `x.1` = unrecoverable signature number 1, `2.0` = node 2 canonical, `2.1` = node 2 re-encoded. -/
 def sig? (w : String) : Option Sig :=
   match w.splitOn "." with
   | [a, b] =>
@@ -15,49 +15,74 @@ def sig? (w : String) : Option Sig :=
 def sigs? (w : String) : Option (List Sig) :=
   if w == "-" then some [] else (w.splitOn ",").mapM sig?
 
+def nats? (w : String) : Option (List Nat) :=
+  if w == "-" then some [] else (w.splitOn ",").mapM (fun x => x.toNat?)
+
+def showSig (s : Sig) : String :=
+  match s.signer with
+  | some d => s!"{d}.{s.variant}"
+  | none => s!"x.{s.variant}"
+
+def showBlks (l : List Blk) : String :=
+  let t := (l.map (fun b => (b.id, "+".intercalate (b.confirms.map showSig)))).toArray.qsort (fun a b => a.1 < b.1)
+  if t.isEmpty then "-" else ",".intercalate (t.toList.map (fun p => s!"{p.1}:{p.2}"))
+
+def showTerms (t : List (List Nat)) : String :=
+  "|".intercalate (t.map (fun l => ".".intercalate (l.map toString)))
+
+/-- the canonical state line: stable, head, the unconfirmed tree and the committed blocks above
+    genesis with the signatures stored for them, the known terms, Confirmer.lastSig. -/
 def showState (s : St) : String :=
-  let t := (s.tree.map (fun b => (b.id, b.confirms.length))).toArray.qsort (fun a b => a.1 < b.1)
-  let ts := if t.isEmpty then "-" else ",".intercalate (t.toList.map (fun p => s!"{p.1}:{p.2}"))
-  s!"stable={s.stable.id}@{s.stable.height} head={s.headId}@{s.headHeight} tree={ts}"
+  s!"stable={s.stable.id}@{s.stable.height} head={s.headId}@{s.headHeight} tree={showBlks s.tree} cm={showBlks (s.committed.filter (fun b => b.height != 0))} terms={showTerms s.terms} ls={s.lastSigH}/{s.lastSigId}"
 
 def finish (old : St) (r : St × String) : St × String :=
-  let q := if r.1.stable.id ≠ old.stable.id then s!" q={distinctCount r.1.n r.1.stable}" else ""
+  let q := if r.1.stable.id ≠ old.stable.id then
+      s!" q={distinctCount (depsAt r.1 r.1.stable.height) r.1.stable}/{twoThirds (depsAt r.1 r.1.stable.height).length}" else ""
   (r.1, s!"{r.2} {showState r.1}{q}")
 
-/-- driver state: the engine state and which verifier runs. The live model is
-    `verifyNewConfirmsFixed` (= validator.go since /repo commit d34eb0a); the line `mode asis`
-    (harness env C03_ASIS=1, only with VERIF_REPO pointing at a tree where that commit is reverted)
-    selects the old bytes-only verifier. -/
+/-- driver state: the engine state and which variant of the two "is this signature new?" tests runs.
+    Default = the live model (`cfgSigner`: validator.go since d34eb0a, TryConfirm/tryConfirmStable since
+    262c027). `mode before-d34eb0a` / `mode before-262c027` (harness env C03_ASIS, only with VERIF_REPO
+    pointing at a tree where the commit(s) are reverted) select the old code. -/
 structure DSt where
-  st : St := init 0 0 0
-  asis : Bool := false
+  st : St := init 0 1 0 0 0 []
+  cfg : Cfg := cfgSigner
 
-def stepSt (V : Verifier) (s : St) (w : List String) : St × String :=
+def stepSt (C : Cfg) (s : St) (w : List String) : St × String :=
   match w with
-  | ["new", dc, n, gr] =>
-    match dc.toNat?, n.toNat?, gr.toNat? with
-    | some dc, some n, some gr => (init dc n gr, "ok")
-    | _, _, _ => (s, "bad-op")
+  | ["new", dc, t, i, self, gr, term0] =>
+    match dc.toNat?, t.toNat?, i.toNat?, self.toNat?, gr.toNat?, nats? term0 with
+    | some dc, some t, some i, some self, some gr, some term0 => (init dc t i self gr term0, "ok")
+    | _, _, _, _, _, _ => (s, "bad-op")
   | ["tt", n] =>
     match n.toNat? with
     | some n => (s, toString (twoThirds n))
     | none => (s, "bad-op")
-  | ["blk", id, parent, height, miner, rank, hdr, valid, sigs] =>
-    match id.toNat?, parent.toNat?, height.toNat?, miner.toNat?, rank.toNat?, sig? hdr, valid.toNat?, sigs? sigs with
-    | some id, some parent, some height, some miner, some rank, some hdr, some valid, some sigs =>
-      finish s (Stable.step V s (.block ⟨id, parent, height, miner, rank, hdr, sigs⟩ (valid != 0)))
-    | _, _, _, _, _, _, _, _ => (s, "bad-op")
+  | ["blk", id, parent, height, miner, rank, hdr, valid, sigs, nd, bad] =>
+    match id.toNat?, parent.toNat?, height.toNat?, miner.toNat?, rank.toNat?, sig? hdr, valid.toNat?, sigs? sigs, nats? nd, bad.toNat? with
+    | some id, some parent, some height, some miner, some rank, some hdr, some valid, some sigs, some nd, some bad =>
+      finish s (Stable.step C s (.block ⟨id, parent, height, miner, rank, hdr, sigs, nd, bad != 0⟩ (valid != 0)))
+    | _, _, _, _, _, _, _, _, _, _ => (s, "bad-op")
+  | ["mine", id, parent, height, miner, rank, nd, bad] =>
+    match id.toNat?, parent.toNat?, height.toNat?, miner.toNat?, rank.toNat?, nats? nd, bad.toNat? with
+    | some id, some parent, some height, some miner, some rank, some nd, some bad =>
+      -- the model derives parent / height / miner of a mined block itself; the line must agree
+      if parent ≠ s.headId ∨ height ≠ s.headHeight + 1 ∨ miner ≠ s.self then (s, "mine-mismatch")
+      else finish s (Stable.step C s (.mine ⟨id, parent, height, miner, rank, ⟨some miner, 0⟩, [], nd, bad != 0⟩))
+    | _, _, _, _, _, _, _ => (s, "bad-op")
   | ["cf", id, height, sigs] =>
     match id.toNat?, height.toNat?, sigs? sigs with
-    | some id, some height, some sigs => finish s (Stable.step V s (.confirms id height sigs))
+    | some id, some height, some sigs => finish s (Stable.step C s (.confirms id height sigs))
     | _, _, _ => (s, "bad-op")
+  | ["reopen"] => finish s (Stable.step C s .reopen)
   | _ => (s, "bad-op")
 
 def step (d : DSt) (w : List String) : DSt × String :=
   match w with
-  | ["mode", "asis"] => ({ d with asis := true }, "ok")
+  | ["mode", "before-d34eb0a"] => ({ d with cfg := cfgBytes }, "ok")
+  | ["mode", "before-262c027"] => ({ d with cfg := cfgVerifierFixed }, "ok")
   | _ =>
-    let r := stepSt (if d.asis then verifyNewConfirms else verifyNewConfirmsFixed) d.st w
+    let r := stepSt d.cfg d.st w
     ({ d with st := r.1 }, r.2)
 
 end Driver.C03
